@@ -13,11 +13,20 @@ Case line:   sy|<obj>,<obj>,...|<cmd>;<cmd>;...
            make the default [1,2] (kinds int, cint, rng, mod7; [] otherwise), which is the model's initial value
   kinds  = int (Int) | str (Str) | cint (CInt) | rng (Range(-3,3)) | mod7 | inc   (the last two are TraitTypes
            defined here: an idempotent, non-injective coercion and a non-idempotent one)
+         | any (Any(0): not a List trait but able to hold a list - the sender's own list object when linked
+           one-way, a list object of its own when linked mutually or assigned from its side; object identity is
+           outside the Lean model, so cases with this kind are `#sy|...` lines: implementation + oracle only)
   <cmd>  = as <o> <name> <val>                 setattr(obj_o, name, val)   val = 5 | s5 (the str '5') | [1,2]
          | mu <o> <name> <list op of seqlib>   in-place mutation of obj_o.name
          | li <o> <name> <o2> <alias> <0|1>    obj_o.sync_trait(name, obj_o2, alias, mutual)
          | un <o> <name> <o2> <alias> <0|1>    obj_o.sync_trait(name, obj_o2, alias, mutual, remove=True)
          | ki <o>                              del obj_o; gc.collect()
+         | kd <o> <name> <v>                   arm a trigger: from now on, whenever trait <name> of obj_o is notified
+                                               (whole-trait change or items event; a recording handler registered at
+                                               birth, so it runs BEFORE the synchronisation handlers), the harness drops
+                                               its last reference to obj_v (`del obj_v; gc.collect()` inside the handler:
+                                               partner death DURING a propagation) - unless obj_v is busy: it is obj_o,
+                                               the running command addresses it, or one of its sync locks is set
 Output: one record per command, joined by ' ; ':
   <res> r<n> <obj0> <obj1> ...      res = ok | ok=<ret> | err:<Exc>;  n = exceptions swallowed by the notifier
   <obj> = dead | <name>=<v>,...,c=<digits>,k=<locked names '+'-joined or '-'>     (declared traits, in order)
@@ -62,7 +71,9 @@ def _trait_types():
 
 
 def make_trait(kind):
-    from traits.api import Int, Str, CInt, Range
+    from traits.api import Int, Str, CInt, Range, Any
+    if kind == "any":
+        return Any(0)
     if kind == "int":
         return Int(0)
     if kind == "str":
@@ -197,6 +208,8 @@ def pure_validate(kind, v):
     elif kind == "inc":
         if type(v) is int:
             return v + 1
+    elif kind == "any":
+        return v
     raise Reject(kind)
 
 
@@ -207,6 +220,8 @@ def pure_validate_attr(spec, name, v):
         if type(v) is not list:
             raise Reject("list")
         return [pure_validate(kind, x) for x in v]
+    if kind == "any":
+        return list(v) if isinstance(v, list) else v      # Any stores whatever it is given (contents compared)
     if type(v) is list:
         raise Reject("scalar")
     return pure_validate(kind, v)
@@ -246,6 +261,8 @@ def parse_cmd(s):
         return (k, int(w[1]), w[2], int(w[3]), w[4], int(w[5]))
     if k == "ki":
         return (k, int(w[1]))
+    if k == "kd":
+        return (k, int(w[1]), w[2], int(w[3]))
     raise AssertionError(s)
 
 
@@ -583,6 +600,112 @@ def random_shape_history(rng, maxcmds=14):
             alive.remove(o)
             cmds.append("ki %d" % o)
     return "sy|%s|%s" % (",".join(specs_s), ";".join(cmds))
+
+
+def random_doom_history(rng):
+    """Partner death DURING a propagation: a hub trait (scalar or List) with 2-4 partners (one-way or mutual,
+    sometimes chained), a trigger armed on one partner's trait whose victim is another partner (mostly one that
+    the hub's loop has not reached yet, sometimes one already visited, the hub itself, an unrelated object),
+    then changes of the hub (assignment / in-place mutation) and, afterwards, changes on both sides and links
+    to a fresh partner (a lock left behind shows there)."""
+    k = rng.choice(["int", "int", "cint", "mod7"])
+    npart = rng.choice([2, 2, 3, 3, 4])
+    nobj = npart + 1 + (1 if rng.random() < 0.5 else 0)
+    specs = [(k, k, k, k)] * nobj
+    lst = rng.random() < 0.5
+    n = ("l" if rng.random() < 0.8 else "m") if lst else ("x" if rng.random() < 0.8 else "y")
+    cmds = []
+    parts = list(range(1, npart + 1))
+    rng.shuffle(parts)
+    for o in parts:
+        if rng.random() < 0.8:
+            cmds.append("li 0 %s %d %s %d" % (n, o, n, 1 if rng.random() < 0.5 else 0))
+        else:
+            cmds.append("li %d %s 0 %s 1" % (o, n, n))
+    if npart >= 3 and rng.random() < 0.3:
+        a, b = rng.sample(parts, 2)
+        cmds.append("li %d %s %d %s %d" % (a, n, b, n, rng.randint(0, 1)))
+    if lst and rng.random() < 0.6:
+        cmds.append("as 0 %s %s" % (n, rand_listval(rng, k, True, lo=2, hi=5)))
+    # the trigger
+    r = rng.random()
+    watcher = rng.choice(parts)
+    if r < 0.7:
+        victim = rng.choice([o for o in parts if o != watcher])
+    elif r < 0.8:
+        victim = 0
+    elif r < 0.9:
+        victim = watcher
+    else:
+        victim = rng.randrange(nobj)
+    cmds.insert(rng.randint(0, len(cmds)), "kd %d %s %d" % (watcher, n, victim))
+    if rng.random() < 0.2:
+        cmds.append("kd %d %s %d" % (rng.choice(parts), n, rng.choice(parts)))
+
+    def change(o):
+        if lst and rng.random() < 0.75:
+            return "mu %d %s %s" % (o, n, rng.choice(["ap 3", "ap 5", "ex [1,2]", "in 0 7", "po -1", "rv", "ia [4]",
+                                                        "ss N N 2 [8]", "ds N N 2", "cl"]))
+        if lst:
+            return "as %d %s %s" % (o, n, rand_listval(rng, k, True, lo=1, hi=4))
+        return "as %d %s %s" % (o, n, rand_scalar(rng, k, True))
+    cmds.append(change(0))
+    fresh = nobj - 1 if nobj > npart + 1 else None
+    for _ in range(rng.randint(1, 5)):
+        r = rng.random()
+        if r < 0.4:
+            cmds.append(change(0))
+        elif r < 0.75:
+            cmds.append(change(rng.choice(parts)))
+        elif r < 0.9 and fresh is not None:
+            cmds.append("li 0 %s %d %s 1" % (n, fresh, n))
+            cmds.append(change(fresh))
+        else:
+            cmds.append("un 0 %s %d %s 1" % (n, rng.choice(parts), n))
+    return "sy|%s|%s" % (",".join(":".join(sp) for sp in specs), ";".join(cmds))
+
+
+def random_any_history(rng):
+    """Mixed partner kinds (implementation + oracle only, `#sy`): a hub List trait with 2-4 partners of different
+    kinds - List traits and Any traits, in any order, mutual or one-way (a one-way Any partner holds the hub's
+    very list object, a mutual one a list object of its own) -, whole-value assignments from every side (also a
+    plain list assigned from the Any side), then in-place mutations of the List sides, removal of a link and
+    more mutations.  The oracle compares the contents of every linked side after every in-place mutation."""
+    k = rng.choice(["int", "int", "cint", "mod7"])
+    nl = rng.choice([1, 1, 2])
+    na = rng.choice([1, 1, 2])
+    specs = ["x=%s:l=*%s" % (k, k)] + ["x=%s:l=*%s" % (k, k)] * nl + ["x=%s:z=any" % k] * na
+    parts = [(o, "l") for o in range(1, nl + 1)] + [(o, "z") for o in range(nl + 1, nl + na + 1)]
+    rng.shuffle(parts)
+    cmds = []
+    if rng.random() < 0.5:
+        cmds.append("as 0 l %s" % rand_listval(rng, k, True, lo=1, hi=4))
+    for (o, n) in parts:
+        if n == "z" and rng.random() < 0.25:
+            cmds.append("li 0 l %d z 0" % o)
+        elif rng.random() < 0.8:
+            cmds.append("li 0 l %d %s 1" % (o, n))
+        else:
+            cmds.append("li %d %s 0 l 1" % (o, n))
+    lists = [0] + [o for (o, n) in parts if n == "l"]
+    anys = [o for (o, n) in parts if n == "z"]
+    ops = ["ap 3", "ap 5", "ex [1,2]", "in 0 7", "in 1 4", "po -1", "po 0", "rv", "so", "ia [4]", "ss N N 2 [8]",
+           "ss 0 1 N [6,6]", "ds N N 2", "di 0", "rm 3", "si 0 2", "im 2"]
+    for _ in range(rng.randint(3, 9)):
+        r = rng.random()
+        if r < 0.55:
+            cmds.append("mu %d l %s" % (rng.choice(lists), rng.choice(ops)))
+        elif r < 0.7:
+            cmds.append("as %d l %s" % (rng.choice(lists), rand_listval(rng, k, True, lo=1, hi=4)))
+        elif r < 0.85:
+            cmds.append("as %d z %s" % (rng.choice(anys), rand_listval(rng, k, True, lo=1, hi=4)))
+        elif r < 0.93:
+            o, n = rng.choice(parts)
+            cmds.append("un 0 l %d %s 1" % (o, n))
+        else:
+            o, n = rng.choice(parts)
+            cmds.append("li 0 l %d %s 1" % (o, n))
+    return "#sy|%s|%s" % (",".join(specs), ";".join(cmds))
 
 
 def with_gc_everywhere(case):
